@@ -1,8 +1,55 @@
-import Cirbo.Model.Norm
-/-! # C17 (placeholder until the theorems are in)
--- OBLIGATION: c17_placeholder
+import Cirbo.Proofs.Norm
+/-!
+# C17 — Shipped circuit databases are correct and lookups return the requested function
+
+-- OBLIGATION: c17_normalize_denormalize_roundtrip
+-- OBLIGATION: c17_normalized_outputs_start_false
+-- OBLIGATION: c17_sort_is_permutation
+-- PARTIAL: proved (for every table, any number of outputs and rows): normalisation followed by denormalisation is the identity on the outputs' truth tables (negation, stable sort, duplicate removal and their inverses). The quantifier over the 2 x 349,724 shipped entries is a finite table: it is discharged by executing the code's and the Lean model's decoder + evaluator + well-formedness checker over the entries (quick: every entry with <= 2 inputs plus a seeded sample; thorough: all), not by a kernel proof. The circuit-level denormalize (labels, order_outputs, not_ gates) is modelled one-to-one and compared field by field; the don't-care lookup (all completions, smallest hit) is checked on the real databases by the search.
 -/
 namespace Cirbo
-theorem c17_placeholder : True := trivial
-#print axioms c17_placeholder
+open Norm
+
+/-- looking a table up = normalise, fetch, denormalise: if the fetched circuit computes the
+normalised table, the returned outputs compute exactly the requested table in the requested order -/
+theorem c17_normalize_denormalize_roundtrip (tt : List Row) (info : Info) (h : normalize tt = .ok info) :
+    denormRows info info.table = .ok tt := normalize_roundtrip tt info h
+
+/-- every normalised output starts with `False` (so an output and its complement share one key) -/
+theorem c17_normalized_outputs_start_false : ∀ (tt : List Row) (negs : List Bool) (rows : List Row),
+    normalizeOutputs tt = .ok (negs, rows) → ∀ r ∈ rows, r.head? = some false := by
+  intro tt
+  induction tt with
+  | nil => intro negs rows h; simp only [normalizeOutputs, Except.ok.injEq, Prod.mk.injEq] at h; obtain ⟨_, rfl⟩ := h; simp
+  | cons row rest ih =>
+    intro negs rows h
+    unfold normalizeOutputs at h
+    split at h
+    · cases h
+    · rename_i b r'
+      split at h
+      · cases h
+      · rename_i ns rs hrec
+        simp only [Except.ok.injEq, Prod.mk.injEq] at h
+        obtain ⟨_, rfl⟩ := h
+        intro r hr
+        rcases List.mem_cons.mp hr with rfl | hr
+        · cases b <;> simp
+        · exact ih ns rs hrec r hr
+
+/-- the recorded permutation is a permutation of the output positions -/
+theorem c17_sort_is_permutation (rows : List Row) :
+    ((sortOutputs rows).map (·.1)).Perm (List.range rows.length) := by
+  have hperm := sortBy_perm (fun (a b : Nat × Row) => rowLt a.2 b.2) (rows.zipIdx.map (fun ri => (ri.2, ri.1)))
+  rw [← (enumerate_spec rows).1]; exact hperm.map _
+
+/-! Non-vacuity: three outputs with a complement pair and a rotation of the sorted order -/
+example : (normalize [[false, true, true, false], [true, false, false, true], [false, false, false, true]]).toOption.map
+    (fun i => (i.negations, i.permutation, i.mapping, label i.table)) =
+    some ([false, true, false], [2, 0, 1], [0, 1, 1], "0001_0110") := by decide
+
+#print axioms c17_normalize_denormalize_roundtrip
+#print axioms c17_normalized_outputs_start_false
+#print axioms c17_sort_is_permutation
+
 end Cirbo
